@@ -1,8 +1,8 @@
 (* C01 — re-serialising any accepted wire input reproduces the consumed bytes exactly.
    One theorem per parser/serialiser pair of the model; see DESIGN.md for the pairs that
    are so far covered by the correspondence check and oracle only. *)
-From Model Require Import Bytes Prim Tables Cert Sig.
-From Proofs Require Import BytesLemmas PrimProofs Frame LeafProofs.
+From Model Require Import Bytes Prim Tables Cert KAC Sig LS.
+From Proofs Require Import BytesLemmas PrimProofs Frame LeafProofs KacRT OffProofs.
 Open Scope Z_scope.
 
 Theorem C01_certificate : forall x c r, wf x -> read_certificate x = Ok (c, r) ->
@@ -32,3 +32,34 @@ Proof. intros x v r H. apply (C01_fixed_size _ _ _ _ H). Qed.
 Theorem C01_string : forall x s r, read_i2pstring x = Ok (s, r) -> s ++ r = x.
 Proof. intros x s r H. destruct (read_i2pstring_ok _ _ _ H) as [l [rest [_ [E _]]]]. auto. Qed.
 Print Assumptions C01_string.
+
+(* keys-and-cert, destination, router identity: every accepted input, every declared key-type
+   pair, any certificate payload excess, any trailing data *)
+Theorem C01_key_certificate : forall x k r, wf x -> new_key_certificate x = Ok (k, r) ->
+  exists b, keycert_bytes k = Ok b /\ b ++ r = x.
+Proof. exact new_key_certificate_RoundTrip. Qed.
+Theorem C01_keys_and_cert : forall x k r, wf x -> read_keys_and_cert x = Ok (k, r) ->
+  exists b, kac_bytes k = Ok b /\ b ++ r = x.
+Proof. exact read_keys_and_cert_RoundTrip. Qed.
+Print Assumptions C01_keys_and_cert.
+Theorem C01_destination : forall x k r, wf x -> read_destination x = Ok (k, r) ->
+  exists b, kac_bytes k = Ok b /\ b ++ r = x.
+Proof. exact read_destination_RoundTrip. Qed.
+Theorem C01_router_identity : forall x k r, wf x -> read_router_identity x = Ok (k, r) ->
+  exists b, kac_bytes k = Ok b /\ b ++ r = x.
+Proof. exact read_router_identity_RoundTrip. Qed.
+Print Assumptions C01_router_identity.
+Example C01_keys_and_cert_nonvacuous :
+  match read_keys_and_cert (repeatN 1 32 ++ repeatN 2 320 ++ repeatN 3 32 ++ [5; 0; 6; 0; 7; 0; 4; 9; 9; 8]%N) with
+  | Ok (k, r) => r = [8%N] /\ kac_bytes k = Ok (repeatN 1 32 ++ repeatN 2 320 ++ repeatN 3 32 ++ [5; 0; 6; 0; 7; 0; 4; 9; 9]%N)
+  | _ => False end.
+Proof. vm_compute. split; reflexivity. Qed.
+
+(* offline signature (every transient and destination signing type) and the whole
+   EncryptedLeaseSet (blinded key of any known type, flags, optional offline signature, inner
+   blob, signature of the effective type) *)
+Theorem C01_offline_signature : forall d dt o r, wf d -> read_offline_signature d dt = Ok (o, r) -> off_bytes o ++ r = d.
+Proof. exact read_offline_RoundTrip. Qed.
+Theorem C01_encrypted_lease_set : forall d l r, wf d -> read_encrypted_lease_set d = Ok (l, r) -> els_bytes l ++ r = d.
+Proof. exact read_els_RoundTrip. Qed.
+Print Assumptions C01_encrypted_lease_set.
